@@ -19,6 +19,9 @@ type specEnv struct {
 	// preferLocals: identifiers resolve to the current value of local variables first (loop invariants)
 	preferLocals bool
 	qfacts       *[]Term
+	assuming     bool // the formula is being assumed: positive universal quantifiers are also instantiated at every index the code uses
+	negative     bool // inside a negation or on the left of an implication
+	hyps         []Term
 	goalHyp      bool // evaluating a hypothesis of a goal: using(lemma(..)) instantiates the lemma
 }
 
@@ -97,6 +100,9 @@ func (se *specEnv) ev(e *Spec) sval {
 		}
 		switch xt := x.typ.Underlying().(type) {
 		case *types.Slice:
+			if fr.c().inlineDepth == 0 {
+				fr.instantiateAt(i.t)
+			}
 			a := Addr{kind: aMem, reg: app("s-reg", x.t), off: add(app("s-off", x.t), i.t), elem: xt.Elem()}
 			v := fr.load(a, nil)
 			return sval{t: v, typ: xt.Elem(), sort: sortOf(xt.Elem()), addr: &a}
@@ -130,6 +136,11 @@ func (se *specEnv) ev(e *Spec) sval {
 		}
 		return sval{t: app("mk-slice", app("s-reg", x.t), add(app("s-off", x.t), lo), sub(hi, lo), sub(app("s-cap", x.t), lo)), typ: x.typ, sort: "Slice"}
 	case "unary":
+		if e.Name == "!" {
+			n := *se
+			n.negative = !se.negative
+			return mathBool(not(n.ev(e.Args[0]).t))
+		}
 		x := se.ev(e.Args[0])
 		switch e.Name {
 		case "!":
@@ -366,9 +377,16 @@ func (se *specEnv) bin(e *Spec) sval {
 	case "||":
 		return mathBool(or(se.ev(e.Args[0]).t, se.ev(e.Args[1]).t))
 	case "==>":
-		return mathBool(imp(se.ev(e.Args[0]).t, se.ev(e.Args[1]).t))
+		l := *se
+		l.negative = !se.negative
+		lhs := l.ev(e.Args[0]).t
+		r := *se
+		r.hyps = append(append([]Term{}, se.hyps...), lhs)
+		return mathBool(imp(lhs, r.ev(e.Args[1]).t))
 	case "<==>":
-		return mathBool(eq(se.ev(e.Args[0]).t, se.ev(e.Args[1]).t))
+		n := *se
+		n.assuming = false
+		return mathBool(eq(n.ev(e.Args[0]).t, n.ev(e.Args[1]).t))
 	}
 	x, y := se.ev(e.Args[0]), se.ev(e.Args[1])
 	if x.sort == "nil" && y.sort == "nil" {
@@ -409,13 +427,13 @@ func (se *specEnv) bin(e *Spec) sval {
 	case "-":
 		return mathInt(app("-", x.t, y.t))
 	case "*":
-		return mathInt(app("*", x.t, y.t))
+		return mathInt(se.fr.c().mul(x.t, y.t))
 	case "/", "%":
 		c := se.fr.c()
 		q, rm := app("div", x.t, y.t), app("mod", x.t, y.t)
 		if _, err := strconv.Atoi(y.t); err != nil {
 			// Euclid's identity for a non-constant divisor
-			c.fact(imp(lt("0", y.t), and(eq(x.t, add(app("*", y.t, q), rm)), le("0", rm), lt(rm, y.t))))
+			c.fact(imp(lt("0", y.t), and(eq(x.t, add(c.mul(y.t, q), rm)), le("0", rm), lt(rm, y.t))))
 		}
 		if op == "/" {
 			return mathInt(q)
@@ -477,6 +495,25 @@ func (se *specEnv) quant(e *Spec) sval {
 		} else {
 			c.fact(f)
 		}
+	}
+	if e.Op == "forall" && se.assuming && !se.negative && c.inlineDepth == 0 {
+		// remember how to instantiate this assumed universal fact: the engine instantiates it at every
+		// index expression the code uses afterwards (explicit instantiation instead of relying on triggers).
+		// lo/hi/body were evaluated in the state of the assumption with the bound variable as a symbol,
+		// so an instance is a textual substitution (no state is captured).
+		hyps := append([]Term{}, se.hyps...)
+		reach := se.st.reach
+		bv := sym(v)
+		qf := append([]Term{}, facts...)
+		c.instantiators = append(c.instantiators, func(idx Term) {
+			sub := func(t Term) Term { return strings.ReplaceAll(t, bv, idx) }
+			for _, f := range qf {
+				if strings.Contains(f, bv) {
+					c.fact(sub(f))
+				}
+			}
+			c.assume(imp(and(reach, and(hyps...), le(sub(lo), idx), lt(idx, sub(hi))), sub(body)))
+		})
 	}
 	var t Term
 	if e.Op == "forall" {
@@ -706,6 +743,7 @@ func (fr *Frame) specEnvFor(st, old *State, vars map[string]sval, preferLocals b
 
 func (fr *Frame) evalSpecBool(e *Spec, st, old *State, vars map[string]sval) Term {
 	se := fr.specEnvFor(st, old, fr.mergeVars(vars), vars == nil)
+	se.assuming = true
 	return se.eval(e).t
 }
 
